@@ -531,6 +531,14 @@ func (segstore *SegStore) AppendWipToSegfile(streamid string, forceRotate bool, 
 	// If there's columns that had both strings and numbers in them, we need to
 	// try converting them all to numbers, but if that doesn't work we'll
 	// convert them all to strings.
+	for colName := range segstore.wipBlock.columnsInBlock {
+		_, hasBloom := segstore.wipBlock.columnBlooms[colName]
+		_, hasRange := segstore.wipBlock.columnRangeIndexes[colName]
+		if hasBloom && hasRange {
+			// the column is re-encoded below; the per-record length seen at ingest no longer holds
+			segstore.AllSeenColumnSizes[colName] = sutils.INCONSISTENT_CVAL_SIZE
+		}
+	}
 	err := consolidateColumnTypes(&segstore.wipBlock, segstore.SegmentKey)
 	if err != nil {
 		log.Errorf("AppendWipToSegfile: error consolidating column types; err=%v", err)
